@@ -367,31 +367,31 @@ func FindGrouping(s *Scenario, ref Ref) (*Grouping, *Mod) {
 		return nil, nil
 	}
 	var found *Grouping
-	var inG func(g *Grouping)
+	var inG func(g *Grouping, scoped bool)
 	var inBody func(body []*Node)
-	inG = func(g *Grouping) {
+	inG = func(g *Grouping, scoped bool) {
 		if found != nil {
 			return
 		}
-		if g.Name == ref.Name {
+		if g.Name == ref.Name && (ref.Scope == "" || scoped) {
 			found = g
 			return
 		}
 		for _, x := range g.Groupings {
-			inG(x)
+			inG(x, false)
 		}
 		inBody(g.Body)
 	}
 	inBody = func(body []*Node) {
 		for _, n := range body {
 			for _, g := range n.Groupings {
-				inG(g)
+				inG(g, ref.Scope != "" && n.Name == ref.Scope)
 			}
 			inBody(n.Kids)
 		}
 	}
 	for _, g := range m.Groupings {
-		inG(g)
+		inG(g, false)
 	}
 	inBody(m.Body)
 	for _, a := range m.Augments {
@@ -844,37 +844,37 @@ func MustReport(s *Scenario) []string {
 	}
 	// uses cycles anywhere (also among groupings nobody uses)
 	{
-		type gkey struct{ mod, name string }
+		type gkey struct{ mod, name, scope string }
 		edges := map[gkey][]gkey{}
 		var collect func(owner gkey, body []*Node)
-		var visitG func(mod string, g *Grouping)
+		var visitG func(mod string, g *Grouping, scope string)
 		collect = func(owner gkey, body []*Node) {
 			for _, n := range body {
 				if n.Kind == KUses && n.Uses != nil {
-					edges[owner] = append(edges[owner], gkey{n.Uses.Mod, n.Uses.Name})
+					edges[owner] = append(edges[owner], gkey{n.Uses.Mod, n.Uses.Name, n.Uses.Scope})
 				}
 				for _, g := range n.Groupings {
-					visitG(owner.mod, g)
+					visitG(owner.mod, g, n.Name)
 				}
 				collect(owner, n.Kids)
 			}
 		}
-		visitG = func(mod string, g *Grouping) {
-			k := gkey{mod, g.Name}
+		visitG = func(mod string, g *Grouping, scope string) {
+			k := gkey{mod, g.Name, scope}
 			for _, x := range g.Groupings {
-				visitG(mod, x)
+				visitG(mod, x, "")
 			}
 			collect(k, g.Body)
 		}
 		for _, m := range s.Mods {
 			for _, g := range m.Groupings {
-				visitG(m.Name, g)
+				visitG(m.Name, g, "")
 			}
 			var inBody func(body []*Node)
 			inBody = func(body []*Node) {
 				for _, n := range body {
 					for _, g := range n.Groupings {
-						visitG(m.Name, g)
+						visitG(m.Name, g, n.Name)
 					}
 					inBody(n.Kids)
 				}
